@@ -421,6 +421,13 @@ pub fn check_nt(c: &NtCase, ctx: &mut Ctx) -> CheckResult {
     // conditioning of W from the reference operator
     let hev = sym_eig(&h_ref, false).0;
     let (hmax, hmin) = (hev.iter().fold(0.0f64, |m, v| m.max(*v)), hev.iter().fold(f64::INFINITY, |m, v| m.min(*v)));
+    if hmin <= 0.0 && delta < 1e-6 {
+        // points within 1e-6 (relative) of the boundary: the dense f64 reference operator itself loses
+        // definiteness; nothing can be judged against it
+        ctx.discard = true;
+        ctx.label("reference-operator-indefinite-near-boundary");
+        return Ok(());
+    }
     ensure!(hmin > 0.0, "reference H not positive definite (harness problem)");
     let kw = (hmax / hmin).sqrt();
     // accuracy also degrades with closeness to the boundary of either point
